@@ -297,10 +297,14 @@ def oracle_subscriptions(src, ops, tail):
     last_val = {}      # observer -> value at end of previous completed stabilise (while in use)
     poisoned = False
     tok_of_sub = {}
+    sub_effects = {}   # sub index -> [(kind, observer, arg)] : subscribe / unsub effects of its handler
+    pending = []       # subscriptions made from inside a handler: (observer, hid, op index where it was made)
+    untracked = set()  # observers on which handler-made subscriptions can no longer be followed
+    dyn = []           # those, once their first delivery was seen: dict(obs, ok, unsub); index -(k+1) in got / tok_of_sub
     for op in ops:
         line = src[op.idx]
         pre = [dict(o) for o in ref.obs]
-        presubs = [dict(s) for s in ref.subs]
+        presubs = [(i, dict(s)) for i, s in enumerate(ref.subs)] + [(-(i + 1), dict(d)) for i, d in enumerate(dyn)]
         parsed = ref.step(line)
         k = parsed[0]
         if op.result.startswith("panic"):
@@ -310,6 +314,42 @@ def oracle_subscriptions(src, ops, tail):
         if k == "subscribe" and op.result.startswith("tok "):
             tok_of_sub[(parsed[1], int(op.result.split()[1]))] = len(ref.subs) - 1
             ref.subs[-1]["created_round"] = rnd
+            sub_effects[len(ref.subs) - 1] = [(e[0], int(e[1]), int(e[2])) for e in parsed[3] if e[0] in ("subscribe", "unsub")]
+        # subscriptions made by handlers in an earlier stabilise receive Initialised now (first stabilise in which
+        # their observer is in use and the node has a value)
+        if k == "stabilise" and op.result.startswith("ok"):
+            snapshot0 = list(ref.store)
+            still = []
+            for (o2, hid2, made) in pending:
+                ob2 = pre[o2] if o2 < len(pre) else None
+                evs = [x for x in op.events if ev_kind(x) == "upd" and int(x.split()[1].split("=")[1]) == o2
+                       and int(x.split()[3].split("=")[1]) == hid2
+                       and (o2, int(x.split()[2].split("=")[1])) not in tok_of_sub]
+                if ob2 is None or ob2["state"] not in ("created", "inuse") or ob2["handles"] <= 0:
+                    continue
+                if not evs:
+                    try:
+                        v = show(ref.eval(ob2["expr"], snapshot0))
+                    except Impure:
+                        continue
+                    return (f"op {op.idx}: the subscription made on observer {o2} from inside a handler (op {made}, handler id {hid2}) "
+                            f"got nothing in the next stabilise; expected Initialised {v}")
+                x = evs[0]
+                tokn = int(x.split()[2].split("=")[1])
+                dyn.append(dict(obs=o2, ok=True, unsub=False))
+                si2 = -len(dyn)
+                tok_of_sub[(o2, tokn)] = si2
+                sub_effects[si2] = []
+                if x.split()[4] != "Initialised":
+                    return f"op {op.idx}: first delivery to a subscription made inside a handler is not Initialised: {x}"
+                try:
+                    v = show(ref.eval(ob2["expr"], snapshot0))
+                    if ref.cutoffs.get(ob2.get("handle")) in (None, "eq") and x.split()[5] != v:
+                        return f"op {op.idx}: {x}: the node's value is {v}"
+                except Impure:
+                    pass
+            pending = still
+        unsub_now = set()      # unsubscribed by some handler during this very stabilise
         for e in op.events:
             if ev_kind(e) != "upd":
                 continue
@@ -319,13 +359,32 @@ def oracle_subscriptions(src, ops, tail):
             if k != "stabilise":
                 return f"op {op.idx} `{line}`: subscription callback outside stabilise: {e}"
             if si is None:
+                if int(f["hid"]) >= 1000:
+                    continue     # made by a handler, and its bookkeeping was given up (see `pending`)
                 return f"op {op.idx}: callback for an unknown subscription: {e}"
             got.setdefault(si, []).append((kind, val))
+            # what this handler does to other observers
+            for (ek, o2, arg) in sub_effects.get(si, []):
+                ob2 = ref.obs[o2] if o2 < len(ref.obs) else None
+                if ob2 is None or ob2["handles"] <= 0:
+                    continue
+                if ek == "subscribe" and ob2["state"] in ("created", "inuse") and o2 not in untracked:
+                    pending.append((o2, arg, op.idx))
+                elif ek == "unsub":
+                    sj = tok_of_sub.get((o2, arg))
+                    if sj is not None and ob2["state"] in ("created", "inuse"):
+                        (ref.subs[sj] if sj >= 0 else dyn[-sj - 1])["unsub"] = True
+                        unsub_now.add(sj)
+                    elif sj is None:
+                        # the token may be that of a subscription a handler made and we have not seen yet: from here
+                        # on the subscriptions handlers make on that observer cannot be told apart
+                        pending = [p_ for p_ in pending if p_[0] != o2]
+                        untracked.add(o2)
         if k != "stabilise" or not op.result.startswith("ok"):
             continue
         snapshot = list(ref.store)
         # expected deliveries this round
-        for si, s in enumerate(presubs):
+        for si, s in presubs:
             if not s["ok"]:
                 continue
             o = pre[s["obs"]]
@@ -351,6 +410,8 @@ def oracle_subscriptions(src, ops, tail):
             else:
                 want = [("Changed", v)] if before[-1][1] != v else []
             have = [(x.split()[4], x.split()[5]) for x in delivered]
+            if si in unsub_now and have == []:
+                continue        # cancelled by another handler before its turn came
             if have != want:
                 return (f"op {op.idx}: subscription {si} on observer {s['obs']} received {have}, expected {want} "
                         f"(earlier deliveries: {before})")
